@@ -35,6 +35,7 @@ def r2_convert_before_combine(run, tree):
              "", floor=4)
     ct.analyse_binary_op(run, tree, "C02.R2")
     r_coercion(run, tree)
+    ct.check_array_constructor(run, tree)
 
 
 def r_coercion(run, tree):
